@@ -149,7 +149,9 @@ def run_shard(spec, ctx):
         if ctx.out_of_time():
             ctx.count('stopped_on_budget')
             break
-        check_case(gen_case(ctx.rng, spec), ctx)
+        case = gen_case(ctx.rng, spec)
+        case['_rerun_shard'] = {'spec': {k: v for k, v in spec.items() if k not in ('budget_s',)}, 'index': i}
+        check_case(case, ctx)
 
 
 def replay(case, ctx):
